@@ -324,6 +324,25 @@ func (w *World) registerRequest(req *sweep.BumpRequest) *simReq {
 		w.height, strings.Join(labels, ","), strings.Join(walletLabels, ","), int64(req.Budget),
 		req.DeadlineHeight, q.startRate, req.Immediate)
 
+	// --- a retry starts no lower than the rate its inputs had reached ----------
+	// (sweeper contract: a failed sweep records its fee rate on every input
+	// as the starting rate of the next attempt; InputSet.StartingFeeRate is
+	// documented as the MAX over the set's inputs - otherwise the rate offered
+	// for an input goes down from one block to the next)
+	var maxRetry int64
+	var maxFrom, maxLabel string
+	for _, in := range q.offered {
+		if in.retryRate > maxRetry {
+			maxRetry, maxFrom, maxLabel = in.retryRate, in.retryFrom, in.label()
+		}
+	}
+	if maxRetry > 0 {
+		w.r.Count("retry_start_rate_checks")
+		if q.startRate < maxRetry {
+			w.violate(q, "retry-starts-lower", "bump request starts at %d sat/kw although its input %s had reached %d sat/kw when request %s failed: the fee rate offered for that input goes down",
+				q.startRate, maxLabel, maxRetry, maxFrom)
+		}
+	}
 	if int64(req.Budget) > q.budgetSum {
 		w.violate(q, "request-budget", "bump request budget %d sat exceeds the sum %d sat of the budgets attached to its inputs [%s]",
 			int64(req.Budget), q.budgetSum, strings.Join(labels, ","))
@@ -360,6 +379,9 @@ func (w *World) onResult(q *simReq, res *sweep.BumpResult) {
 		for _, in := range q.offered {
 			if in.live == q {
 				in.live = nil
+			}
+			if res.Event == sweep.TxFailed || res.Event == sweep.TxUnknownSpend {
+				in.retryRate, in.retryFrom = int64(res.FeeRate), q.key
 			}
 		}
 		// The ramp must never overshoot: a request whose caller-supplied
